@@ -11,7 +11,7 @@ package ldb
 //@   props C11 C19
 //@   requires b != nil && b.pathLen == len(b.path)
 //@   ensures (err != nil) == (!asPrefix && len(key) == 0)
-//@   ensures err != nil ==> result == nil
+//@   ensures err != nil ==> result == nil && err == db.ErrIllegalKey
 //@   ensures err == nil ==> fresh(result) && len(result) == b.pathLen + 1 + len(key)
 //@   ensures err == nil ==> bytesEq(result, 0, b.path, 0, b.pathLen) && result[b.pathLen] == '_'
 //@   ensures err == nil ==> bytesEq(result, b.pathLen + 1, key, 0, len(key))
@@ -43,7 +43,8 @@ package ldb
 //@   props C11 C19
 //@   requires wfBatch(b) && b.seqNo < 0xffffffff && v != nil
 //@   modifies b, b.puts
-//@   ensures wfBatch(b) && b.seqNo == old(b.seqNo) + 1 && sameRef(b.puts, old(b.puts)) && sameRef(b.deletes, old(b.deletes)) && b.b == old(b.b)
+//@   ensures b.seqNo == old(b.seqNo) + 1 && sameRef(b.puts, old(b.puts)) && sameRef(b.deletes, old(b.deletes)) && b.b == old(b.b)
+//@   ensures wfBatch(b)
 //@   ensures has(b.puts, strOf(k)) && b.puts[strOf(k)].seq == b.seqNo && sameSlice(b.puts[strOf(k)].data, v)
 //@   ensures forall qs_ string :: qs_ != strOf(k) ==> has(b.puts, qs_) == old(has(b.puts, qs_)) && b.puts[qs_] == old(b.puts[qs_])
 //@   ensures isPut(b, strOf(k))
@@ -126,7 +127,7 @@ package ldb
 //@   ensures result != nil
 //@   ensures slice != nil && len(old(slice.Limit)) > 0 ==> strOf(result.(*levelIterator).slice.Limit) == old(ikey(b, slice.Limit))
 //@   ensures slice != nil ==> strOf(result.(*levelIterator).slice.Start) == old(ikey(b, slice.Start))
-//@   ensures slice == nil ==> strOf(result.(*levelIterator).slice.Start) == ikey(b, nil)
+//@   ensures slice == nil ==> strOf(result.(*levelIterator).slice.Start) == b.path + "_"
 //@   ensures (slice == nil || len(old(slice.Limit)) == 0) ==> isPrefixSucc(b.innerKeyForIterator(nil), result.(*levelIterator).slice.Limit)
 
 // the exclusive upper bound of all keys with prefix p (p not all 0xff): p cut after its last byte below 0xff, that byte + 1
